@@ -411,6 +411,45 @@ pub fn hdr_obs(what: u32, fld: u32, raw: &[u8], v: u32) -> Obs {
                     Obs::Bytes(c.get_response().generate_smbus_header(v as u8).0.to_vec())
                 }
             }
+            15 => {
+                // a half constructed on its own, no context around it
+                let (half, addr, eid) = (v & 1, (v >> 1) as u8, (v >> 9) as u8);
+                let mut buf = raw.to_vec();
+                let rr = catch_unwind(AssertUnwindSafe(|| {
+                    if half == 1 {
+                        let h = libmctp::smbus_request::MCTPSMBusContextRequest::new(addr);
+                        h.set_eid(eid);
+                        let r = h.get_endpoint_id(fld as u8, &mut buf);
+                        (h.get_address(), h.get_eid(), r)
+                    } else {
+                        let h = libmctp::smbus_response::MCTPSMBusContextResponse::new(addr);
+                        h.set_eid(eid);
+                        let r = h.get_endpoint_id(
+                            CompletionCode::Success,
+                            fld as u8,
+                            MCTPGetEndpointIDEndpointType::Simple,
+                            MCTPGetEndpointIDEndpointIDType::DynamicEID,
+                            false,
+                            &mut buf,
+                        );
+                        (h.get_address(), h.get_eid(), r)
+                    }
+                }));
+                match rr {
+                    Err(_) => Obs::Panic(buf),
+                    Ok((a, e, r)) => { buf.push(a); buf.push(e); buf.push(match r { Ok(n) => n as u8, Err(()) => 255 }); Obs::Bytes(buf) }
+                }
+            }
+            16 => match fld {
+                0 => Obs::Bytes(MCTPSMBusHeader::new().0.to_vec()),
+                1 => Obs::Bytes(MCTPSMBusHeader::default().0.to_vec()),
+                2 => arr::<4>(raw).map_or(Obs::Bad, |a| Obs::Bytes(MCTPSMBusHeader::new_from_buf(a).0.to_vec())),
+                3 => arr::<2>(raw).map_or(Obs::Bad, |a| Obs::Bytes(MCTPControlMessageHeader::new_from_buf(a).0.to_vec())),
+                4 => arr::<4>(raw).map_or(Obs::Bad, |a| Obs::Bytes(SMBusRoutingInformationUpdateEntry::new_from_buf(a).0.to_vec())),
+                5 => arr::<2>(raw).map_or(Obs::Bad, |a| Obs::Bytes(PCIMessageFormat::new_from_buf(a).0.to_vec())),
+                6 => arr::<4>(raw).map_or(Obs::Bad, |a| Obs::Bytes(IANAMessageFormat::new_from_buf(a).0.to_vec())),
+                _ => Obs::Bad,
+            },
             14 => {
                 // the three request encoders that end in unimplemented!(): the panic is the observation, with the buffer
                 // as the packet writer left it
